@@ -135,6 +135,9 @@ func cmdCheck(args []string) int {
 	var deferredUnits []string
 	for _, k := range sortedKeys(p.contracts.Funcs) {
 		fc := p.contracts.Funcs[k]
+		if fc.View != "" {
+			continue
+		}
 		if !hasProp(fc.Props, *prop) || (*only != "" && !strings.Contains(k, *only)) {
 			continue
 		}
